@@ -12,13 +12,13 @@ import (
 )
 
 // C15 — client-supplied return targets never redirect off-site. E2: every
-// string of up to 3 (quick) / 4 (thorough) tokens over a 22-token alphabet x
+// string of up to 3 (quick) / 4 (thorough) tokens over a 23-token alphabet x
 // delivery (form field / query) x response mode x site scheme on the password
 // login; the 3-token set on the OTP, TOTP, SMS flows and on the OAuth2 round
 // trip. The emitted Location header / JSON location is resolved with a
 // browser-faithful resolver (urlres.go) against the login page URL.
 
-var c15Sigma = []string{"/", "\\", "//", "http:", "https:", "HtTpS:", "javascript:", "evil.test", "site.test", "@", ":", ".", "a", "?", "#", "%2f", "%5c", "\t", "\n", " ", "./", "../"}
+var c15Sigma = []string{"/", "\\", "//", "http:", "https:", "HtTpS:", "javascript:", "evil.test", "site.test", "@", ":", ".", "a", "?", "#", "%2f", "%5c", "\t", "\n", " ", "./", "../", "\x01"}
 
 type c15Flow struct {
 	name    string
@@ -80,6 +80,28 @@ func c15Flows() []c15Flow {
 		{name: "oauth2-roundtrip", modules: []string{"auth", "oauth2"}, queryOnly: true,
 			final: func(s *world.Stack, w *world.World, t string, q bool) []world.Req {
 				return []world.Req{flows.OAuthStart(s, "B1", "google", "redir="+url.QueryEscape(t)), {Browser: "B1", Method: "GET", Path: "@oauth-callback"}}
+			}},
+		// the parameter repeated next to a harmless same-site value: whichever occurrence the flow follows must be the one it vets
+		{name: "oauth2-roundtrip+dup-last", modules: []string{"auth", "oauth2"}, queryOnly: true,
+			final: func(s *world.Stack, w *world.World, t string, q bool) []world.Req {
+				return []world.Req{flows.OAuthStart(s, "B1", "google", "redir=%2Fhome&redir="+url.QueryEscape(t)), {Browser: "B1", Method: "GET", Path: "@oauth-callback"}}
+			}},
+		{name: "oauth2-roundtrip+dup-first", modules: []string{"auth", "oauth2"}, queryOnly: true,
+			final: func(s *world.Stack, w *world.World, t string, q bool) []world.Req {
+				return []world.Req{flows.OAuthStart(s, "B1", "google", "redir="+url.QueryEscape(t)+"&redir=%2Fhome"), {Browser: "B1", Method: "GET", Path: "@oauth-callback"}}
+			}},
+		{name: "login+dup-last", modules: []string{"auth"}, queryOnly: true,
+			final: func(s *world.Stack, w *world.World, t string, q bool) []world.Req {
+				return []world.Req{withRedir(withRedir(flows.Login(s, "B1", U1, P1, false), "/home", true), t, true)}
+			}},
+		{name: "login+dup-first", modules: []string{"auth"}, queryOnly: true,
+			final: func(s *world.Stack, w *world.World, t string, q bool) []world.Req {
+				return []world.Req{withRedir(withRedir(flows.Login(s, "B1", U1, P1, false), t, true), "/home", true)}
+			}},
+		{name: "login+form-and-query", modules: []string{"auth"},
+			// viaQuery: the candidate travels in the query and the harmless value in the form, else the reverse
+			final: func(s *world.Stack, w *world.World, t string, q bool) []world.Req {
+				return []world.Req{withRedir(withRedir(flows.Login(s, "B1", U1, P1, false), "/home", !q), t, q)}
 			}},
 	}
 }
@@ -204,7 +226,7 @@ func c15Run(flow c15Flow, maxTok, first int, jsonMode bool, scheme string, dl ti
 
 // c15Shape names the spelling class of an off-site target (signature attribute).
 func c15Shape(t string) string {
-	s := strings.TrimLeft(t, " \t\n")
+	s := strings.TrimLeft(t, " \t\n\x01")
 	clean := strings.NewReplacer("\t", "", "\n", "").Replace(s)
 	ctl := ""
 	if clean != s || s != t {
@@ -230,14 +252,14 @@ func c15Units(tier string) []engine.Unit {
 	var us []engine.Unit
 	for _, flow := range c15Flows() {
 		maxTok := 3
-		if tier == "thorough" && (flow.name == "login" || flow.name == "oauth2-roundtrip" || flow.name == "oauth2-roundtrip+param") {
+		if tier == "thorough" && (flow.name == "login" || flow.name == "oauth2-roundtrip" || flow.name == "oauth2-roundtrip+param" || flow.name == "oauth2-roundtrip+dup-last") {
 			maxTok = 4
 		}
 		if tier != "thorough" && flow.name == "login" {
 			maxTok = 3
 		}
 		for _, jsonMode := range []bool{false, true} {
-			if jsonMode && (strings.HasPrefix(flow.name, "oauth2-roundtrip") || flow.name == "hijack-roundtrip") {
+			if jsonMode && (strings.HasPrefix(flow.name, "oauth2-roundtrip") || flow.name == "hijack-roundtrip" || strings.HasPrefix(flow.name, "login+")) {
 				continue // browser round trips are form-mode flows
 			}
 			for _, scheme := range []string{"http", "https"} {
@@ -284,7 +306,7 @@ func c15Units(tier string) []engine.Unit {
 func init() {
 	engine.Register(&engine.Property{
 		ID: "C15", Level: "exploration",
-		Rule:        "every string of up to 3 (4 in the thorough tier for the login and OAuth2 flows) tokens over a 22-token alphabet (slashes, backslashes, schemes in mixed case, javascript:, hosts, @ : . ? #, percent-encoded separators, TAB, LF, space) as the return target of each flow that follows it (password, OTP, TOTP, SMS, hijack round trip, OAuth2 round trip), delivered as form field and as query, form and JSON modes, http and https site; Location / JSON location resolved with a WHATWG-faithful resolver; classes = (target class => response class) pairs",
+		Rule:        "every string of up to 3 (4 in the thorough tier for the login and OAuth2 flows) tokens over a 23-token alphabet (slashes, backslashes, schemes in mixed case, javascript:, hosts, @ : . ? #, percent-encoded separators, TAB, LF, space, the C0 control 0x01) as the return target of each flow that follows it (password, OTP, TOTP, SMS, hijack round trip, OAuth2 round trip), delivered as form field, as query, and as a repeated parameter next to a harmless value (either order; form field vs query), form and JSON modes, http and https site; Location / JSON location resolved with a WHATWG-faithful resolver; classes = (target class => response class) pairs",
 		Units:       c15Units,
 		Need:        []string{"target:off-site-host=>response:same-site", "target:same-site=>response:same-site"},
 		Assumptions: []string{"the resolver is conservative: unparsable values count as same-site", "honouring or ignoring a same-site value are both accepted (safety only)"},
